@@ -19,8 +19,9 @@ for changes that break the property, keep the pinned suite green and need someth
 here was confirmed independently (`tools/seed_mutant.py`: suite still 676/676 with the change, its demonstration fails with
 it and passes without it) and then run against the property's quick check with the change applied to /repo
 (`git -C /repo apply`, undone straight afterwards). %d changes are kept under `/verif/seeded/<id>/` (patch.diff, demo.py,
-the agent's notes, meta.json); %d are detected by the quick tier of the property's check, %d is no longer a defect on the
-current tree (see its row). %d of them were **missed when first run** and led to the strengthening recorded below; the quick
+the agent's notes, meta.json); %d are detected by the quick tier of the property's check, %d are no longer defects on the
+current tree (a later fix: commit made the changed code correct again; see their rows). `tools/regress_seeded.py` re-runs all of
+them against the current checks. %d of them were **missed when first run** and led to the strengthening recorded below; the quick
 tier was re-run on the unchanged tree after each strengthening (still clean).
 
 %s
